@@ -53,3 +53,54 @@ Theorem old_arithmetic_refuted :
   (direct_insert_old 5 7 [(1, true); (2, true)] = None /\ py_insert 5 7 [1; 2] = [1; 2; 7]).
 Proof. split; [exact old_insert_minus1_refuted|exact old_insert_beyond_end_refuted]. Qed.
 Print Assumptions old_arithmetic_refuted.
+
+(* 5. slices: `l[a:b] = xs` / `del l[a:b]` for any bounds (negative, beyond the ends, None, inverted) *)
+Theorem slice_assignment_length : forall (a b : option Z) (xs l : list Z),
+  length (py_slice_set a b xs l) = (py_lo (length l) a + length xs + (length l - py_hi (length l) a b))%nat.
+Proof. exact (@py_slice_set_length Z). Qed.
+Print Assumptions slice_assignment_length.
+(* every list is its prefix, its slice and its suffix: assigning a slice to itself changes nothing, assigning to [:] replaces all *)
+Theorem slice_assignment_frame : forall (a b : option Z) (xs l : list Z),
+  py_slice_set a b (py_slice a b l) l = l /\ py_slice_set None None xs l = xs.
+Proof. intros. split; [apply py_slice_set_same|apply py_slice_set_whole]. Qed.
+Print Assumptions slice_assignment_frame.
+(* ElementListCouplingMixin.__delitem__ rewrites `del l[i]` as `del l[i : i + 1 or None]` *)
+Theorem delitem_is_slice_deletion : forall (l : list Z) i k, py_index (length l) i = Some k ->
+  py_delitem i l = Some (py_slice_del (Some i) (if i + 1 =? 0 then None else Some (i + 1)) l).
+Proof. intros l i k H. unfold py_delitem. rewrite H. f_equal. symmetry. now apply delitem_as_slice. Qed.
+Print Assumptions delitem_is_slice_deletion.
+Example delitem_is_slice_deletion_hyps_sat : py_index (length [4; 5; 6]) (-1) = Some 2%nat /\ py_slice_del (Some (-1)) None [4; 5; 6] = [4; 5].
+Proof. split; reflexivity. Qed.
+(* deleting a slice of an attribute relation member by member is the Python slice deletion — when no object is held twice *)
+Theorem attribute_slice_delete_refines_partial : forall a b l, NoDup l -> attr_slice_del a b l = py_slice_del a b l.
+Proof. exact attr_slice_del_refines. Qed.
+Print Assumptions attribute_slice_delete_refines_partial.
+Theorem attribute_slice_delete_refuted :
+  attr_slice_del (Some 2) None [1; 2; 3; 1] = [2] /\ py_slice_del (Some 2) None [1; 2; 3; 1] = [1; 2].
+Proof. exact attr_slice_del_duplicates_refuted. Qed.
+Print Assumptions attribute_slice_delete_refuted.
+
+(* 6. fixed-length relations keep their length under ANY sequence of item assignment, slice assignment, slice and item
+      deletion, insertion and whole-list assignment; a rejected operation leaves the list as it was (fixed_apply), an
+      accepted one gives what the Python list gives *)
+Theorem fixed_length_kept : forall fixed ops l, length l = fixed -> length (fold_left (fixed_apply fixed) ops l) = fixed.
+Proof. exact fixed_run_keeps_length. Qed.
+Print Assumptions fixed_length_kept.
+Example fixed_length_kept_hyps_sat :
+  fold_left (fixed_apply 2) [FSliceSet (Some 1) None []; FSetItem (-1) 9; FAssign [1; 2; 3]; FSliceSet (Some 0) (Some 1) [5]] [7; 8] = [5; 9].
+Proof. reflexivity. Qed.
+Theorem fixed_accepted_is_python : forall fixed l o r, fixed_step fixed l o = Some r ->
+  match o with
+  | FSetItem i x => py_setitem i x l = Some r
+  | FSliceSet a b xs => r = py_slice_set a b xs l
+  | FSliceDel a b => r = py_slice_del a b l
+  | FDelItem i => py_delitem i l = Some r
+  | FInsert i x => r = py_insert i x l
+  | FAssign xs => r = xs
+  end.
+Proof. exact fixed_step_is_python. Qed.
+Print Assumptions fixed_accepted_is_python.
+(* the guard `len > fixed` instead of `len <> fixed` lets a slice assignment shrink a full list *)
+Theorem relaxed_length_guard_refuted : fixed_step_gt_guard 2 [7; 8] (Some 1) None [] = Some [7].
+Proof. exact relaxed_guard_refuted. Qed.
+Print Assumptions relaxed_length_guard_refuted.
